@@ -337,7 +337,7 @@ class Ctx:
             print("VIOLATION property=%s replay=%s key=%s %s" % (self.id, path, k, what))
         print("%s %s seed=%d: states=%d transitions=%d traces=%d evaluations=%d distinct=%d wall=%.1fs -> %s" % (
             self.id, self.tier, self.seed, self.states, self.transitions, self.traces, self.evaluations,
-            len(self._distinct), wall, "VIOLATED" if self.viol else "ok"))
+            (self.distinct_override if self.distinct_override is not None else len(self._distinct)), wall, "VIOLATED" if self.viol else "ok"))
         if not os.environ.get("VERIF_KEEP"):
             shutil.rmtree(self.work, ignore_errors=True)
         return 1 if self.viol else 0
